@@ -114,6 +114,13 @@ structure MetaRules (L A M S T : Type) where
   fixUpdate : M → M → M
   validCreate : Obj L A M S T → Bool
   validUpdate : Obj L A M S T → Obj L A M S T → Bool
+  /-- DELETE keeps the object (pending finalizers, or a graceful deletion already pending) -/
+  deleteKeeps : M → Bool
+  /-- the kept object was not terminating yet (`deletionTimestamp == nil`): `markAsDeleting` bumps -/
+  deleteBumps : M → Bool
+  markDeleting : M → M
+  /-- `ShouldDeleteDuringUpdate` (new, stored): the update emptied the finalizers of a terminating object -/
+  deletedByUpdate : M → M → Bool
 
 inductive Reject
   | internal    -- no ObjectMeta accessor: `errors.NewInternalError`
@@ -156,9 +163,20 @@ inductive Api (L A M S T : Type)
   | update (ep : Endpoint) (obj : Obj L A M S T)
   | delete
 
+/-- `Store.Delete` as far as the generation is concerned: an object without pending finalizers is removed; a
+    kept one is marked as terminating, and k8s' `markAsDeleting` bumps the generation of an object that was not
+    terminating yet (if it is > 0; plain `int64` addition). -/
+def apiDelete (mr : MetaRules L A M S T) (cur : Obj L A M S T) : Option (Obj L A M S T) :=
+  if mr.deleteKeeps cur.otherMeta then
+    some { cur with
+      generation := if mr.deleteBumps cur.otherMeta && decide (0 < cur.generation) then toI64 (cur.generation + 1) else cur.generation,
+      otherMeta := mr.markDeleting cur.otherMeta }
+  else none
+
 /-- One request against the stored state (`none` = no such object). `Store.Update` of a missing object goes
     through `BeforeCreate` because `AllowCreateOnUpdate()` is true for both strategies (the embedded one answers
-    for the status strategy); a rejected request leaves the state alone. -/
+    for the status strategy); a rejected request leaves the state alone; an accepted update that empties the
+    finalizers of a terminating object removes it. -/
 def apiStep [DecidableEq S'] [DecidableEq A'] (sem : Sem A S A' S') (r : Reg) (mr : MetaRules L A M S T) (zero : T) :
     Option (Obj L A M S T) → Api L A M S T → Option (Obj L A M S T)
   | none, .create o => (beforeCreate r mr zero o).toOption
@@ -167,9 +185,10 @@ def apiStep [DecidableEq S'] [DecidableEq A'] (sem : Sem A S A' S') (r : Reg) (m
       if ep = .status ∧ !r.served then none else (beforeCreate r mr zero o).toOption
   | some cur, .update ep o =>
       match beforeUpdate sem r ep mr o cur with
-      | .ok o' => some o'
+      | .ok o' => if mr.deletedByUpdate o'.otherMeta cur.otherMeta then none else some o'
       | .error _ => some cur
-  | _, .delete => none
+  | none, .delete => none
+  | some cur, .delete => apiDelete mr cur
 
 def apiRun [DecidableEq S'] [DecidableEq A'] (sem : Sem A S A' S') (r : Reg) (mr : MetaRules L A M S T) (zero : T) :
     Option (Obj L A M S T) → List (Api L A M S T) → Option (Obj L A M S T)
